@@ -29,6 +29,31 @@ static FILES: LazyLock<Mutex<HashMap<usize, FileHandle>>> =
 static FIND_HANDLES: LazyLock<Mutex<HashMap<usize, FindHandle>>> =
     LazyLock::new(|| Mutex::new(HashMap::new()));
 
+// Verification hook (compiled in only with `--cfg wowrs_verif`; see /verif): called immediately
+// before every acquisition of one of the global handle-table mutexes, with "<function>.<lock>".
+// A test harness can install a callback to observe or steer the interleaving of threads.
+#[cfg(wowrs_verif)]
+static VERIF_SYNC: std::sync::RwLock<Option<fn(&'static str)>> = std::sync::RwLock::new(None);
+
+/// Install the synchronisation callback (verification builds only)
+#[cfg(wowrs_verif)]
+pub fn verif_set_sync(f: fn(&'static str)) {
+    *VERIF_SYNC.write().unwrap() = Some(f);
+}
+
+#[cfg(wowrs_verif)]
+#[inline]
+fn verif_sync(point: &'static str) {
+    let f = *VERIF_SYNC.read().unwrap();
+    if let Some(f) = f {
+        f(point);
+    }
+}
+
+#[cfg(not(wowrs_verif))]
+#[inline(always)]
+fn verif_sync(_point: &'static str) {}
+
 // Thread-local error storage
 thread_local! {
     static LAST_ERROR: RefCell<u32> = const { RefCell::new(ERROR_SUCCESS) };
@@ -191,6 +216,7 @@ pub unsafe extern "C" fn SFileOpenArchive(
     match Archive::open(filename_str) {
         Ok(archive) => {
             // Generate new handle ID
+            verif_sync("SFileOpenArchive.NEXT");
             let mut next_id = NEXT_HANDLE.lock().unwrap();
             let handle_id = *next_id;
             *next_id += 1;
@@ -201,6 +227,7 @@ pub unsafe extern "C" fn SFileOpenArchive(
                 archive,
                 path: filename_str.to_string(),
             };
+            verif_sync("SFileOpenArchive.ARCH");
             ARCHIVES.lock().unwrap().insert(handle_id, archive_handle);
 
             // Return handle
@@ -332,6 +359,7 @@ pub extern "C" fn SFileCloseArchive(handle: HANDLE) -> bool {
         // SFileFindFirstFile). The archive is removed first and its file and search handles are
         // purged before ARCHIVES is released, so no handle of a closed archive can survive or be
         // created concurrently.
+        verif_sync("SFileCloseArchive.ARCH");
         let mut archives = ARCHIVES.lock().unwrap();
         let Some(closed) = archives.remove(&handle_id) else {
             set_last_error(ERROR_INVALID_HANDLE);
@@ -339,10 +367,12 @@ pub extern "C" fn SFileCloseArchive(handle: HANDLE) -> bool {
         };
 
         // Remove any open files and searches of this archive
+        verif_sync("SFileCloseArchive.FILES");
         FILES
             .lock()
             .unwrap()
             .retain(|_, file| file.archive_handle != handle_id);
+        verif_sync("SFileCloseArchive.FINDS");
         FIND_HANDLES
             .lock()
             .unwrap()
@@ -393,6 +423,7 @@ pub unsafe extern "C" fn SFileOpenFileEx(
     };
 
     // Get the archive
+    verif_sync("SFileOpenFileEx.ARCH");
     let mut archives = ARCHIVES.lock().unwrap();
     let Some(archive_handle) = archives.get_mut(&archive_id) else {
         set_last_error(ERROR_INVALID_HANDLE);
@@ -429,6 +460,7 @@ pub unsafe extern "C" fn SFileOpenFileEx(
         match read_result {
             Ok(data) => {
                 // Generate file handle
+                verif_sync("SFileOpenFileEx.NEXT");
                 let mut next_id = NEXT_HANDLE.lock().unwrap();
                 let file_id = *next_id;
                 *next_id += 1;
@@ -444,6 +476,7 @@ pub unsafe extern "C" fn SFileOpenFileEx(
                 };
 
                 // Store file handle
+                verif_sync("SFileOpenFileEx.FILES");
                 FILES.lock().unwrap().insert(file_id, file);
 
                 // Return handle
@@ -466,6 +499,7 @@ pub unsafe extern "C" fn SFileOpenFileEx(
 #[no_mangle]
 pub extern "C" fn SFileCloseFile(file: HANDLE) -> bool {
     if let Some(file_id) = handle_to_id(file) {
+        verif_sync("SFileCloseFile.FILES");
         if FILES.lock().unwrap().remove(&file_id).is_some() {
             set_last_error(ERROR_SUCCESS);
             true
@@ -505,6 +539,7 @@ pub unsafe extern "C" fn SFileReadFile(
     };
 
     // Get file handle
+    verif_sync("SFileReadFile.FILES");
     let mut files = FILES.lock().unwrap();
     let Some(file_handle) = files.get_mut(&file_id) else {
         set_last_error(ERROR_INVALID_HANDLE);
@@ -551,6 +586,7 @@ pub unsafe extern "C" fn SFileGetFileSize(file: HANDLE, high: *mut u32) -> u32 {
         return 0xFFFFFFFF; // INVALID_FILE_SIZE
     };
 
+    verif_sync("SFileGetFileSize.FILES");
     let files = FILES.lock().unwrap();
     let Some(file_handle) = files.get(&file_id) else {
         set_last_error(ERROR_INVALID_HANDLE);
@@ -585,6 +621,7 @@ pub unsafe extern "C" fn SFileSetFilePointer(
         return 0xFFFFFFFF; // INVALID_SET_FILE_POINTER
     };
 
+    verif_sync("SFileSetFilePointer.FILES");
     let mut files = FILES.lock().unwrap();
     let Some(file_handle) = files.get_mut(&file_id) else {
         set_last_error(ERROR_INVALID_HANDLE);
@@ -642,6 +679,7 @@ pub unsafe extern "C" fn SFileHasFile(archive: HANDLE, filename: *const c_char) 
         Err(_) => return false,
     };
 
+    verif_sync("SFileHasFile.ARCH");
     let mut archives = ARCHIVES.lock().unwrap();
     if let Some(archive_handle) = archives.get_mut(&archive_id) {
         // A writable archive must be asked through its session state (files added, renamed or
@@ -685,11 +723,13 @@ pub unsafe extern "C" fn SFileGetFileInfo(
     };
 
     // Try as file first
+    verif_sync("SFileGetFileInfo.FILES");
     if let Some(file_handle) = FILES.lock().unwrap().get(&handle_id) {
         return get_file_info(file_handle, info_class, buffer, buffer_size, size_needed);
     }
 
     // Try as archive
+    verif_sync("SFileGetFileInfo.ARCH");
     if let Some(archive_handle) = ARCHIVES.lock().unwrap().get(&handle_id) {
         return get_archive_info(archive_handle, info_class, buffer, buffer_size, size_needed);
     }
@@ -837,6 +877,7 @@ pub unsafe extern "C" fn SFileGetArchiveName(
         return false;
     };
 
+    verif_sync("SFileGetArchiveName.ARCH");
     let archives = ARCHIVES.lock().unwrap();
     let Some(archive_handle) = archives.get(&archive_id) else {
         set_last_error(ERROR_INVALID_HANDLE);
@@ -904,6 +945,7 @@ pub unsafe extern "C" fn SFileEnumFiles(
     };
 
     // Get archive
+    verif_sync("SFileEnumFiles.ARCH");
     let mut archives = ARCHIVES.lock().unwrap();
     let Some(archive_handle) = archives.get_mut(&archive_id) else {
         set_last_error(ERROR_INVALID_HANDLE);
@@ -992,6 +1034,7 @@ pub unsafe extern "C" fn SFileGetFileName(file: HANDLE, buffer: *mut c_char) -> 
         return false;
     };
 
+    verif_sync("SFileGetFileName.FILES");
     let files = FILES.lock().unwrap();
     let Some(file_handle) = files.get(&file_id) else {
         set_last_error(ERROR_INVALID_HANDLE);
@@ -1054,6 +1097,7 @@ pub unsafe extern "C" fn SFileExtractFile(
     };
 
     // Get the archive
+    verif_sync("SFileExtractFile.ARCH");
     let mut archives = ARCHIVES.lock().unwrap();
     let Some(archive_handle) = archives.get_mut(&archive_id) else {
         set_last_error(ERROR_INVALID_HANDLE);
@@ -1135,6 +1179,7 @@ pub unsafe extern "C" fn SFileVerifyFile(
     };
 
     // Get the archive
+    verif_sync("SFileVerifyFile.ARCH");
     let mut archives = ARCHIVES.lock().unwrap();
     let Some(archive_handle) = archives.get_mut(&archive_id) else {
         set_last_error(ERROR_INVALID_HANDLE);
@@ -1286,6 +1331,7 @@ pub unsafe extern "C" fn SFileVerifyArchive(archive: HANDLE, flags: u32) -> bool
     };
 
     // Get the archive
+    verif_sync("SFileVerifyArchive.ARCH");
     let mut archives = ARCHIVES.lock().unwrap();
     let Some(archive_handle) = archives.get_mut(&archive_id) else {
         set_last_error(ERROR_INVALID_HANDLE);
@@ -1437,6 +1483,7 @@ pub unsafe extern "C" fn SFileAddFileEx(
     };
 
     // Get mutable archive handle
+    verif_sync("SFileAddFileEx.ARCH");
     let mut archives = ARCHIVES.lock().unwrap();
     let archive_handle = match archives.get_mut(&archive_id) {
         Some(handle) => handle,
@@ -1559,6 +1606,7 @@ pub unsafe extern "C" fn SFileRemoveFile(
     };
 
     // Get mutable archive handle
+    verif_sync("SFileRemoveFile.ARCH");
     let mut archives = ARCHIVES.lock().unwrap();
     let archive_handle = match archives.get_mut(&archive_id) {
         Some(handle) => handle,
@@ -1638,6 +1686,7 @@ pub unsafe extern "C" fn SFileRenameFile(
     };
 
     // Get mutable archive handle
+    verif_sync("SFileRenameFile.ARCH");
     let mut archives = ARCHIVES.lock().unwrap();
     let archive_handle = match archives.get_mut(&archive_id) {
         Some(handle) => handle,
@@ -1696,6 +1745,7 @@ pub unsafe extern "C" fn SFileFlushArchive(archive: HANDLE) -> bool {
     };
 
     // Get mutable archive handle
+    verif_sync("SFileFlushArchive.ARCH");
     let mut archives = ARCHIVES.lock().unwrap();
     let archive_handle = match archives.get_mut(&archive_id) {
         Some(handle) => handle,
@@ -1754,6 +1804,7 @@ pub unsafe extern "C" fn SFileCompactArchive(
     };
 
     // Get mutable archive handle
+    verif_sync("SFileCompactArchive.ARCH");
     let mut archives = ARCHIVES.lock().unwrap();
     let archive_handle = match archives.get_mut(&archive_id) {
         Some(handle) => handle,
@@ -1961,6 +2012,7 @@ pub unsafe extern "C" fn SFileFindFirstFile(
 
     // Get file list from archive. ARCHIVES stays locked until the search handle is registered, so
     // that SFileCloseArchive cannot miss it.
+    verif_sync("SFileFindFirstFile.ARCH");
     let mut archives = ARCHIVES.lock().unwrap();
     let file_list = {
         match archives.get_mut(&archive_id) {
@@ -2025,12 +2077,14 @@ pub unsafe extern "C" fn SFileFindFirstFile(
         fill_find_data(lp_find_file_data, file, archives.get_mut(&archive_id));
 
         // Store find handle
+        verif_sync("SFileFindFirstFile.NEXT");
         let mut next_id = NEXT_HANDLE.lock().unwrap();
         let handle_id = *next_id;
         *next_id += 1;
         drop(next_id);
 
         find_handle.current_index += 1; // Move to next for SFileFindNextFile
+        verif_sync("SFileFindFirstFile.FINDS");
         FIND_HANDLES.lock().unwrap().insert(handle_id, find_handle);
 
         set_last_error(ERROR_SUCCESS);
@@ -2065,6 +2119,7 @@ pub unsafe extern "C" fn SFileFindNextFile(
         }
     };
 
+    verif_sync("SFileFindNextFile.FINDS");
     let mut find_handles = FIND_HANDLES.lock().unwrap();
     let find_handle = match find_handles.get_mut(&handle_id) {
         Some(handle) => handle,
@@ -2101,6 +2156,7 @@ pub unsafe extern "C" fn SFileFindNextFile(
         };
         let archive_id = find_handle.archive_handle;
         drop(find_handles);
+        verif_sync("SFileFindNextFile.ARCH");
         let mut archives = ARCHIVES.lock().unwrap();
         fill_find_data(lp_find_file_data, &file, archives.get_mut(&archive_id));
         set_last_error(ERROR_SUCCESS);
@@ -2126,6 +2182,7 @@ pub unsafe extern "C" fn SFileFindClose(h_find: HANDLE) -> bool {
         }
     };
 
+    verif_sync("SFileFindClose.FINDS");
     if FIND_HANDLES.lock().unwrap().remove(&handle_id).is_some() {
         set_last_error(ERROR_SUCCESS);
         true
@@ -2301,6 +2358,7 @@ pub unsafe extern "C" fn SFileCreateArchive2(
             match MutableArchive::open(filename_str) {
                 Ok(mut_archive) => {
                     // Generate new handle ID
+                    verif_sync("SFileCreateArchive2.NEXT");
                     let mut next_id = NEXT_HANDLE.lock().unwrap();
                     let handle_id = *next_id;
                     *next_id += 1;
@@ -2311,6 +2369,7 @@ pub unsafe extern "C" fn SFileCreateArchive2(
                         archive: mut_archive,
                         path: filename_str.to_string(),
                     };
+                    verif_sync("SFileCreateArchive2.ARCH");
                     ARCHIVES.lock().unwrap().insert(handle_id, archive_handle);
 
                     // Return handle
